@@ -161,6 +161,8 @@ func (k *walker) storable(s atree.Storable, parent atree.SlabID, root int) {
 		fmt.Fprintf(&k.sb, "n%d", s.ByteSize())
 	case tu.StringValue:
 		fmt.Fprintf(&k.sb, "s%d", s.ByteSize())
+	case BytesValue:
+		fmt.Fprintf(&k.sb, "y%d", s.ByteSize())
 	case tu.SomeStorable:
 		k.sb.WriteString("S(")
 		k.storable(s.Storable, parent, root)
@@ -329,6 +331,8 @@ func (k *walker) keyStorable(s atree.Storable, self atree.SlabID, root int) {
 			str = str[:i]
 		}
 		fmt.Fprintf(&k.sb, "k%q/%d", str, s.ByteSize())
+	case BytesValue:
+		fmt.Fprintf(&k.sb, "ky%x", string(s))
 	default:
 		k.storable(s, self, root)
 	}
@@ -539,6 +543,8 @@ func keyText(k MV) string {
 		}
 		// drop the serial between '#' and '.'
 		return fmt.Sprintf("k%q/%d", s, StrSize(k.S))
+	case Bytes:
+		return fmt.Sprintf("ky%x", k.B)
 	}
 	return MVString(k)
 }
